@@ -24,6 +24,8 @@ CellOk(x, cell, status) ==
     [] x.k = "int" -> CellIsInt(cell, x.v)
     [] x.k = "ratio" -> LET d == ParseDec(cell) IN d.ok /\ ~d.neg /\ CloseRel(d.num, Pow10(d.scale), FromInt(x.n), FromInt(x.d), 9)
     [] x.k = "sqrt" -> LET d == ParseDec(cell) IN d.ok /\ ~d.neg /\ CloseRel(Mul(d.num, d.num), Pow10(2 * d.scale), FromInt(x.v), <<1>>, 9)
+    \* beyond 2^53 a float prints its shortest round-trip digits, zero padded: accept within relative 10^-9
+    [] x.k = "big" -> AllDigits(cell) /\ CloseRel(FromDigits([i \in 1 .. Len(cell) |-> DigitVal(cell[i])]), <<1>>, x.n, <<1>>, 9)
     [] x.k = "words" -> Words(cell) = x.w
     [] x.k = "ftime" -> FTimeOk(cell, x.v)
     [] x.k = "wrong" -> cell = <<>> \/ status = 2
